@@ -1,6 +1,6 @@
 (* C15 -- PatProofs.v : lemmas about the StringMatcher model (Pat/Translate.v, Pat/Ere.v). *)
 From Coq Require Import List Arith NArith Bool Lia.
-From Muscle Require Import Gen.Consts Pat.Ere Pat.EreProofs Pat.Translate Pat.Simple Pat.TranslateProofs Pat.DenoteProofs Pat.UniqueProofs.
+From Muscle Require Import Gen.Consts Pat.Ere Pat.EreProofs Pat.Translate Pat.Simple Pat.TranslateProofs Pat.DenoteProofs Pat.UniqueProofs Pat.UvProofs Pat.RangeProofs Pat.SimpleParse Pat.SimpleParseProofs Pat.PatSpec.
 Import ListNotations.
 Local Open Scope N_scope.
 
@@ -182,6 +182,47 @@ Proof.
     match goal with |- context [engine ?x] => destruct (engine x) end; repeat split; reflexivity.
 Qed.
 
+Lemma set_pattern_uvlist : forall engine st0 p,
+  s_uvlist (fst (set_pattern engine st0 p true)) =
+  snd (can_match_multiple p) && is_nil (fst (fst (simple_body (snd (strip_negate p))))) && negb (fst (strip_negate p)).
+Proof.
+  intros engine [p0 v0 n0 m0 s0 u0 r0 x0] p. unfold set_pattern.
+  destruct (can_match_multiple p) as [multi only].
+  destruct (strip_negate p) as [neg str]. cbn [fst snd].
+  destruct (simple_body str) as [[ranges rp] str']. cbn [fst snd].
+  destruct v0, ranges as [|r1 rs], rp as [|c0 cs], str' as [|d0 ds];
+    cbv [free_regex set_uvlist set_regex set_ranges set_negate set_multi set_pat fst snd is_nil
+         s_pattern s_valid s_negate s_multi s_simple s_uvlist s_ranges s_regexp app];
+    try reflexivity;
+    match goal with |- context [engine ?x] => destruct (engine x) end; reflexivity.
+Qed.
+
+Lemma cw_snd_fst : forall p first esc saw, snd (cw_loop p first esc saw) = true -> fst (cw_loop p first esc saw) = true.
+Proof.
+  induction p as [|c t IH]; intros first esc saw H; [exact H|].
+  cbn [cw_loop] in *.
+  destruct (negb ((c =? ch_bsl) && negb esc) && negb (c =? c_cw_ignored_char) && negb esc && is_regex_token c first).
+  - destruct (c =? c_cw_comma_char); [apply IH; exact H | reflexivity].
+  - apply IH; exact H.
+Qed.
+
+Lemma uv_head_ok : forall p, snd (can_match_multiple p) = true -> head_ok p = true /\ only_commas p true false.
+Proof.
+  intros [|c t] H; [discriminate H|]. unfold can_match_multiple in H.
+  destruct tbl_cw_chars as (_ & _ & Tr). rewrite Tr in H.
+  destruct (c =? 96) eqn:E96; [discriminate H|].
+  split; [|apply cw_snd_mono; exact H].
+  cbn [head_ok]. change ch_backtick with 96. rewrite E96.
+  destruct (c =? ch_bsl) eqn:Eb.
+  - apply N.eqb_eq in Eb. subst c. reflexivity.
+  - rewrite (cw_cons_other c t true false Eb) in H.
+    destruct (c =? 45) eqn:E45.
+    + apply N.eqb_eq in E45. subst c. reflexivity.
+    + cbn [negb andb] in H. destruct (is_regex_token c true) eqn:Et.
+      * destruct (c =? 44) eqn:E44; [|discriminate H]. apply N.eqb_eq in E44. subst c. reflexivity.
+      * destruct (nontoken_first_head c Et) as (H1 & _ & H3). rewrite H1, H3. reflexivity.
+Qed.
+
 Lemma cw_head_ok : forall p, fst (can_match_multiple p) = false -> head_ok p = true.
 Proof.
   intros [|c t] H; [reflexivity|]. unfold can_match_multiple in H.
@@ -291,6 +332,33 @@ Section Engine.
     intros s st0 t. rewrite (unique_exact (escape s) st0 t (escape_unique s st0)).
     rewrite unescape_escape. tauto.
   Qed.
+
+  (* a pattern reported "list of unique values" matches exactly its comma-separated values *)
+  Theorem uvlist_exact : forall p st0 t,
+    is_uvlist (fst (set_pattern engine st0 p true)) = true ->
+    (matches (fst (set_pattern engine st0 p true)) t = true <-> In t (uv_segs p false [])).
+  Proof.
+    intros p st0 t Hu. unfold is_uvlist in Hu. rewrite set_pattern_uvlist in Hu.
+    apply andb_true_iff in Hu as [Hu _]. apply andb_true_iff in Hu as [Hu _].
+    destruct (uv_head_ok p Hu) as [Hh Hc].
+    rewrite (matches_simple_regex engine st0 p _ t (regex_string_head_ok p Hh)).
+    rewrite head_ok_strip by exact Hh. cbn [fst]. rewrite xorb_false_l.
+    pose proof (compile_uv p Hc) as Ec.
+    rewrite engine_is_ere by (rewrite Ec; discriminate).
+    unfold ere_engine. rewrite Ec. rewrite ere_exec_anchored. apply uv_exact.
+  Qed.
+
+  (* translate_correct read as a statement about pattern STRINGS: whenever the reader of the documented
+     grammar accepts the string p (as the tree al), p and ~p match exactly what al denotes *)
+  Theorem translate_correct_str : forall p al st0 s,
+    sparse p = Some al ->
+    (matches (fst (set_pattern engine st0 p true)) s = true <-> den_alt al s) /\
+    (matches (fst (set_pattern engine st0 (ch_tilde :: p) true)) s = true <-> ~ den_alt al s).
+  Proof.
+    intros p al st0 s H. apply sparse_sound in H as [Ep Hwf]. subst p. split.
+    - exact (translate_correct false al st0 s Hwf).
+    - exact (translate_correct true al st0 s Hwf).
+  Qed.
 End Engine.
 
 (* ------------------------------------------------------------------ an example pattern for the non-vacuity checks *)
@@ -300,3 +368,99 @@ Definition ex_alt : salt :=
   SLast (SCons (SLit 97) (SCons SOne (SCons SRun (SCons (SClass true [(98, 100); (120, 120)])
         (SCons (SGroup (SMore (SCons (SEsc 42) SNil) false (SMore (SCons (SLit 101) SNil) true (SLast (SCons (SLit 102) (SCons (SLit 46) SNil))))))
          SNil))))).
+
+(* ------------------------------------------------------------------ where the code departs from the documentation *)
+
+(* FULL statement of translate_correct: as proved above but with [wf_pattern] allowing any character
+   except ] [ - ^ as a class member.  It is FALSE for the code (finding F24): SetPattern rewrites
+   , . + * ? and backslash inside brackets too. *)
+Lemma class_meta_refuted :
+  exists neg items c,
+    class_has neg items c = true /\
+    matches (fst (set_pattern ere_engine sm_init (print_pattern false (SLast (SCons (SClass neg items) SNil))) true)) [c] = false.
+Proof. exists false, [(44, 44)], 44. vm_compute. split; reflexivity. Qed.
+
+(* the same class matches the bar instead *)
+Lemma class_meta_refuted_bar :
+  class_has false [(44, 44)] 124 = false /\
+  matches (fst (set_pattern ere_engine sm_init (print_pattern false (SLast (SCons (SClass false [(44, 44)]) SNil))) true)) [124] = true.
+Proof. vm_compute. split; reflexivity. Qed.
+
+Lemma print_num_inj : forall a b, print_num a = print_num b -> a = b.
+Proof. intros a b H. rewrite <- (print_num_val a), <- (print_num_val b), H. reflexivity. Qed.
+
+(* FULL statement for range lists: Match p s = true <-> den_ranges cs s, for every subject s.
+   FALSE for the code in two ways. *)
+(* F25: only the leading digits of the subject are read *)
+Lemma range_junk_refuted :
+  exists cs s,
+    ~ den_ranges cs s /\
+    matches (fst (set_pattern ere_engine sm_init (print_range_pattern false cs) true)) s = true.
+Proof.
+  exists [RBetween 10 20], [49; 50; 97; 98; 99]. split; [|vm_compute; reflexivity].
+  intros (v & E & _).
+  pose proof (print_num_digits v) as D. rewrite <- E in D. vm_compute in D. discriminate.
+Qed.
+
+(* F26: the subject's value is reduced modulo 2^32 *)
+Lemma range_wrap_refuted :
+  exists cs s,
+    ~ den_ranges cs s /\
+    matches (fst (set_pattern ere_engine sm_init (print_range_pattern false cs) true)) s = true.
+Proof.
+  exists [RSingle 1], (print_num 4294967297). split; [|vm_compute; reflexivity].
+  intros (v & E & H). apply print_num_inj in E. subst v. vm_compute in H. discriminate.
+Qed.
+
+(* ------------------------------------------------------------------ the model as an instance of the client interface *)
+
+Definition model_ops (engine : list N -> rx) : pat_ops :=
+  mkOps (sm_match engine) (sm_unique engine) (fun p => is_uvlist (sm_of engine p)) unescape escape.
+
+Section EngineLaws.
+  Variable engine : list N -> rx.
+  Hypothesis engine_is_ere : forall re, ere_compile re <> CUnsupported -> engine re = ere_engine re.
+
+  Lemma model_unique_sound : unique_sound_law (model_ops engine).
+  Proof. intros p t H. exact (unique_exact engine engine_is_ere p sm_init t H). Qed.
+
+  Lemma model_multi_complete : multi_complete_law (model_ops engine).
+  Proof. intros p t1 t2. exact (multi_complete engine engine_is_ere p sm_init t1 t2). Qed.
+
+  Lemma model_escape_exact : escape_exact_law (model_ops engine).
+  Proof. intros s t. exact (escape_exact engine engine_is_ere s sm_init t). Qed.
+
+  Lemma model_uvlist_sound : uvlist_sound_law (model_ops engine) uv_values.
+  Proof.
+    intros p t Hu Hne. cbn [model_ops po_match po_uvlist] in *. unfold sm_match, sm_of in *.
+    rewrite (uvlist_exact engine engine_is_ere p sm_init t Hu).
+    unfold uv_values. rewrite filter_In. split; [|tauto].
+    intros H. split; [exact H|]. destruct t; [congruence | reflexivity].
+  Qed.
+
+  Lemma model_escape_unique : escape_unique_law (model_ops engine).
+  Proof.
+    intros s. split; [exact (escape_unique engine s sm_init) | apply unescape_escape].
+  Qed.
+
+  Lemma model_uvlist_not_unique : uvlist_not_unique_law (model_ops engine).
+  Proof.
+    intros p Hu. cbn [model_ops po_unique po_uvlist] in *. unfold sm_unique, sm_of in *.
+    unfold is_uvlist in Hu. rewrite set_pattern_uvlist in Hu.
+    apply andb_true_iff in Hu as [Hu _]. apply andb_true_iff in Hu as [Hu _].
+    destruct (is_unique (fst (set_pattern engine sm_init p true))) eqn:E; [|reflexivity].
+    apply unique_iff in E. exfalso.
+    unfold can_match_multiple in *. destruct p as [|c t]; [discriminate Hu|].
+    destruct (c =? c_cw_rawregex_char); [discriminate Hu|].
+    rewrite (cw_snd_fst _ _ _ _ Hu) in E. discriminate E.
+  Qed.
+
+  Lemma model_laws :
+    unique_sound_law (model_ops engine) /\ multi_complete_law (model_ops engine) /\
+    escape_exact_law (model_ops engine) /\ escape_unique_law (model_ops engine) /\
+    uvlist_sound_law (model_ops engine) uv_values /\ uvlist_not_unique_law (model_ops engine).
+  Proof.
+    exact (conj model_unique_sound (conj model_multi_complete (conj model_escape_exact
+          (conj model_escape_unique (conj model_uvlist_sound model_uvlist_not_unique))))).
+  Qed.
+End EngineLaws.
